@@ -1,6 +1,6 @@
 """C16 — all front-ends agree with the library."""
 from mirsym import models_typst as T
-from . import cli, libskel
+from . import cli, libskel, clinative
 
 EXPLANATION = (
     "Bounded symbolic execution (MIR->SMT, z3). (1) CLI (real MIR of main .. write_back, StyleArgs::to_config) over symbolic worlds: "
@@ -20,6 +20,8 @@ def run(S):
     found = cli.explore(S, ('C16',), K, walkK)
     cli.require(S, ['C16 stdout mode prints'], found)
     cli.report(S, 'C16', found)
+    # the property stated on the real binary for a fixed family of worlds (contents as real text: byte order mark, CR LF, bystander files)
+    clinative.report(S, 'C16')
     libskel.run(S)
     # structural: every front-end reaches Typstyle::format_source_inspect / format_content
     binm = S.bin
